@@ -119,4 +119,11 @@ def fmean (x : List Fl) : Fl :=
 /-- the array after `a[:k] = v` for a non-negative integer `k` and a scalar `v`.  `fillTo [1, 2, 3] 2 9 = [9, 9, 3]` -/
 def fillTo {γ : Type} (a : List γ) (k : Nat) (v : γ) : List γ := List.replicate (min k a.length) v ++ a.drop k
 
+/-- the array `x` after `for i in range(n - 1): x[i + 1] = (y[i + 1] - y[i]) / d` on `x = np.zeros(n)` (`len(y) = n`): `x[0] = 0`.
+`diffQuot [some 1, some 3, some 6] (1/2) = [some 0, some 4, some 6]` -/
+def diffQuot (y : List Fl) (d : Rat) : List Fl :=
+  match y with
+  | [] => []
+  | y0 :: ys => some 0 :: List.zipWith (fun b a => fdiv (fsub b a) (some d)) ys (y0 :: ys)
+
 end EqsigVerif.NpS
